@@ -45,6 +45,26 @@ theorem rel_run_compliant (e : Elem α β σ)
     have := ih (e.step s i) _ _ _ (hstep s p a d i h hc1) hc2
     simpa [accepted, delivered, pendRun, List.append_assoc] using this
 
+/-- Executable form of `Compliant` (for concrete examples). -/
+def compliantB [DecidableEq α] (e : Elem α β σ) : σ → Option (Tok α) → List (In α) → Bool
+  | _, _, [] => true
+  | s, pend, i :: is =>
+    (match pend with
+      | none => true
+      | some t => i.valid && decide (i.tok = t)) && compliantB e (e.step s i) (pendNext e s i) is
+
+theorem compliant_of_B [DecidableEq α] (e : Elem α β σ) (ins : List (In α)) :
+    ∀ s p, compliantB e s p ins = true → Compliant e s p ins := by
+  induction ins with
+  | nil => intro s p _; trivial
+  | cons i is ih =>
+    intro s p h
+    simp only [compliantB, Bool.and_eq_true] at h
+    refine ⟨?_, ih _ _ h.2⟩
+    intro t ht
+    subst ht
+    simpa using h.1
+
 end contract
 
 /-! ### Framing specification -/
